@@ -157,13 +157,15 @@ theorem CU_isSome (x : H) : (CU σ C M x).isSome = (C x).isSome := by
   cases C x <;> rfl
 
 /-- the effect of one iteration on `Nodes`, in terms of the visited set -/
-theorem step_A (ctx : Ctx σ A C) (hc : SUnder σ c) (hMc : M c = false) (hMs : M (liftP σ c) = false)
+theorem step_A (ctx : Ctx σ A C) {fl : Bool}
+    (hall : fl = true → ∀ q v, SUnder (parent σ) q → A q = some v → v.remember = true)
+    (hc : SUnder σ c) (hMc : M c = false) (hMs : M (liftP σ c) = false)
     (hun : 1 ≤ c.1 → M (unliftP σ c) = true) (q : Pos) :
     (match AU σ A M (liftP σ c) with
       | some v =>
         if v.hash ≠ zero then
           upd (upd (AU σ A M) (liftP σ c) none) c
-            (some (if ((CU σ C M v.hash).isSome || false) = true then ⟨v.hash, true⟩ else v))
+            (some (if ((CU σ C M v.hash).isSome || fl) = true then ⟨v.hash, true⟩ else v))
         else AU σ A M
       | none => AU σ A M) q = AU σ A (ins M c) q := by
   have hs := lift_sunder hc
@@ -180,11 +182,16 @@ theorem step_A (ctx : Ctx σ A C) (hc : SUnder σ c) (hMc : M c = false) (hMs : 
   | some v =>
     simp only
     rw [if_pos (ctx.hz _ v hs hA)]
-    have hv : (if ((CU σ C M v.hash).isSome || false) = true then (⟨v.hash, true⟩ : Leaf H) else v) = v := by
-      rw [CU_isSome, Bool.or_false]
+    have hv : (if ((CU σ C M v.hash).isSome || fl) = true then (⟨v.hash, true⟩ : Leaf H) else v) = v := by
+      rw [CU_isSome]
       split
       · rename_i h
-        have := ctx.hfl _ v hs hA h
+        have : v.remember = true := by
+          cases hfl' : fl with
+          | true => exact hall hfl' _ v hs hA
+          | false =>
+            rw [hfl', Bool.or_false] at h
+            exact ctx.hfl _ v hs hA h
         cases v
         simp only at this
         rw [this]
@@ -375,9 +382,11 @@ theorem ofNat_succ (j : Nat) : BitVec.ofNat 64 j + (1 : U64) = BitVec.ofNat 64 (
 section loops
 variable {T : Nat} {σ : Pos} {A : Pos → Option (Leaf H)} {C : H → Option Pos}
 
-theorem row_rep (ctx : Ctx σ A C) (hσ : Valid T σ) (hlt : σ.1 < T) {ρ : Nat} (hρ : ρ < σ.1) :
+theorem row_rep (ctx : Ctx σ A C) {fl : Bool}
+    (hall : fl = true → ∀ q v, SUnder (parent σ) q → A q = some v → v.remember = true)
+    (hσ : Valid T σ) (hlt : σ.1 < T) {ρ : Nat} (hρ : ρ < σ.1) :
     ∀ (k j : Nat) (m : MapPollard H), j + k = 2 ^ (σ.1 - ρ) →
-      Rep m T (AU σ A (Mset σ ρ j)) (CU σ C (Mset σ ρ j)) → m.full = false →
+      Rep m T (AU σ A (Mset σ ρ j)) (CU σ C (Mset σ ρ j)) → m.full = fl →
       ∃ m', MapPollard.placeRowLoop (encP T (sib σ)) (encU T ρ (σ.2 * 2 ^ (σ.1 - ρ))) k (BitVec.ofNat 64 j) m
           = (m', .ok ()) ∧
         Rep m' T (AU σ A (Mset σ ρ (2 ^ (σ.1 - ρ)))) (CU σ C (Mset σ ρ (2 ^ (σ.1 - ρ)))) ∧
@@ -412,15 +421,17 @@ theorem row_rep (ctx : Ctx σ A C) (hσ : Valid T σ) (hlt : σ.1 < T) {ρ : Nat
         (AU σ A (Mset σ ρ (j + 1))) (CU σ C (Mset σ ρ (j + 1))) := by
       rw [← Mset_succ hρ hjlt]
       refine rep1.congr (fun q => ?_) (fun x => ?_)
-      · exact (step_A ctx hc Mset_dest Mset_lift (fun h1 => Mset_unlift hρ hjlt h1) q).symm
+      · exact (step_A ctx hall hc Mset_dest Mset_lift (fun h1 => Mset_unlift hρ hjlt h1) q).symm
       · exact (step_C ctx hc Mset_dest Mset_lift x).symm
     obtain ⟨f1, f2, _⟩ := placeBody_frame (encP T (dest σ ρ j)) (encP T (liftP σ (dest σ ρ j))) m
     obtain ⟨m', e, rep', n', f'⟩ := ih (j + 1) _ (by omega) rep2 (f2.trans hfull)
     exact ⟨m', e, rep', n'.trans f1, f'.trans f2⟩
 
-theorem levels_rep (ctx : Ctx σ A C) (hσ : Valid T σ) (hlt : σ.1 < T) :
+theorem levels_rep (ctx : Ctx σ A C) {fl : Bool}
+    (hall : fl = true → ∀ q v, SUnder (parent σ) q → A q = some v → v.remember = true)
+    (hσ : Valid T σ) (hlt : σ.1 < T) :
     ∀ (h : Nat) (m : MapPollard H), h ≤ σ.1 →
-      Rep m T (AU σ A (Mset σ (σ.1 - h) 0)) (CU σ C (Mset σ (σ.1 - h) 0)) → m.full = false →
+      Rep m T (AU σ A (Mset σ (σ.1 - h) 0)) (CU σ C (Mset σ (σ.1 - h) 0)) → m.full = fl →
       ∃ m', MapPollard.placeLoop (encP T (sib σ)) (encP T σ) h m = (m', .ok ()) ∧
         Rep m' T (AU σ A (Mset σ σ.1 0)) (CU σ C (Mset σ σ.1 0)) ∧
         m'.numLeaves = m.numLeaves ∧ m'.full = m.full := by
@@ -438,7 +449,7 @@ theorem levels_rep (ctx : Ctx σ A C) (hσ : Valid T σ) (hlt : σ.1 < T) :
         = (encU T (σ.1 - (h + 1)) (σ.2 * 2 ^ (h + 1)), false) := by
       rw [rep.rows]
       exact Props.C16.childMany_enc hT hσ.1 hh hσ.2
-    obtain ⟨m1, e1, rep1, n1, f1⟩ := row_rep ctx hσ hlt hρ (2 ^ (h + 1)) 0 m (by rw [ek]; omega) rep hfull
+    obtain ⟨m1, e1, rep1, n1, f1⟩ := row_rep ctx hall hσ hlt hρ (2 ^ (h + 1)) 0 m (by rw [ek]; omega) rep hfull
     rw [ek] at e1 rep1
     have e1' : MapPollard.placeRowLoop (encP T (sib σ)) (encU T (σ.1 - (h + 1)) (σ.2 * 2 ^ (h + 1)))
         (2 ^ (h + 1)) 0#64 m = (m1, .ok ()) := e1
@@ -499,6 +510,27 @@ theorem placeEmptyRoot_eq {m : MapPollard H} {T : Nat} {A : Pos → Option (Leaf
 
 /-- `placeEmptyRoot (sib σ)` on the abstract state: the nodes strictly below `parent σ` (the
 lifted subtree of `σ`) move one row down, below `σ` -/
+theorem placeEmptyRoot_rep_gen {m : MapPollard H} {T : Nat} {A : Pos → Option (Leaf H)} {C : H → Option Pos}
+    (rep : Rep m T A C) {fl : Bool} (hfull : m.full = fl) {σ : Pos} (hσ : Valid T σ) (hlt : σ.1 < T)
+    (h0 : ∀ q, SUnder (parent σ) q → q.1 = 0 → A q = none)
+    (hz : ∀ q v, SUnder (parent σ) q → A q = some v → v.hash ≠ zero)
+    (hfl : ∀ q v, SUnder (parent σ) q → A q = some v → (C v.hash).isSome = true → v.remember = true)
+    -- on a full forest every stored node below `parent σ` carries the flag
+    (hall : fl = true → ∀ q v, SUnder (parent σ) q → A q = some v → v.remember = true)
+    (hc : ∀ q v, SUnder (parent σ) q → A q = some v → ∀ t, C v.hash = some t → t = q)
+    (hc2 : ∀ x t, C x = some t → SUnder (parent σ) t → ∃ v, A t = some v ∧ v.hash = x) :
+    ∃ m', MapPollard.placeEmptyRoot (encP T (sib σ)) m = (m', .ok ()) ∧
+      Rep m' T (unliftA σ A) (unliftC σ C) ∧ m'.numLeaves = m.numLeaves ∧ m'.full = m.full := by
+  have ctx : Ctx σ A C := ⟨h0, hz, hfl, hc, hc2⟩
+  rw [placeEmptyRoot_eq rep hσ hlt]
+  have rep0 : Rep m T (AU σ A (Mset σ (σ.1 - σ.1) 0)) (CU σ C (Mset σ (σ.1 - σ.1) 0)) := by
+    rw [Nat.sub_self, Mset_zero]
+    exact rep.congr (AU_empty σ A) (CU_empty σ C)
+  obtain ⟨m', e, rep', n, f⟩ := levels_rep ctx hall hσ hlt σ.1 m (Nat.le_refl _) rep0 hfull
+  exact ⟨m', e, rep'.congr (AU_full ctx) (CU_full σ C), n, f⟩
+
+/-- `placeEmptyRoot (sib σ)` on the abstract state: the nodes strictly below `parent σ` (the
+lifted subtree of `σ`) move one row down, below `σ` -/
 theorem placeEmptyRoot_rep {m : MapPollard H} {T : Nat} {A : Pos → Option (Leaf H)} {C : H → Option Pos}
     (rep : Rep m T A C) (hfull : m.full = false) {σ : Pos} (hσ : Valid T σ) (hlt : σ.1 < T)
     -- row 0 below `parent σ` is empty (the lifted subtree starts on row 1)
@@ -511,14 +543,8 @@ theorem placeEmptyRoot_rep {m : MapPollard H} {T : Nat} {A : Pos → Option (Lea
     -- a cached position below `parent σ` is stored with that hash
     (hc2 : ∀ x t, C x = some t → SUnder (parent σ) t → ∃ v, A t = some v ∧ v.hash = x) :
     ∃ m', MapPollard.placeEmptyRoot (encP T (sib σ)) m = (m', .ok ()) ∧
-      Rep m' T (unliftA σ A) (unliftC σ C) ∧ m'.numLeaves = m.numLeaves ∧ m'.full = m.full := by
-  have ctx : Ctx σ A C := ⟨h0, hz, hfl, hc, hc2⟩
-  rw [placeEmptyRoot_eq rep hσ hlt]
-  have rep0 : Rep m T (AU σ A (Mset σ (σ.1 - σ.1) 0)) (CU σ C (Mset σ (σ.1 - σ.1) 0)) := by
-    rw [Nat.sub_self, Mset_zero]
-    exact rep.congr (AU_empty σ A) (CU_empty σ C)
-  obtain ⟨m', e, rep', n, f⟩ := levels_rep ctx hσ hlt σ.1 m (Nat.le_refl _) rep0 hfull
-  exact ⟨m', e, rep'.congr (AU_full ctx) (CU_full σ C), n, f⟩
+      Rep m' T (unliftA σ A) (unliftC σ C) ∧ m'.numLeaves = m.numLeaves ∧ m'.full = m.full :=
+  placeEmptyRoot_rep_gen rep hfull hσ hlt h0 hz hfl (fun h => by cases h) hc hc2
 
 /-! ### nothing to move -/
 
